@@ -28,10 +28,12 @@ package native
 //@   ensures result >= 0 ==> !isSpace((*s)[result])
 //@   ensures result < 0 ==> (0 <= *p && *p <= len(*s) + 4 && -10 <= result)
 
-//@ func SkipOneFast assumed "native skip_one_fast: start/end lie inside the input; on error *p is at most 4 bytes past the end"
+//@ pure func isDigit(c byte) bool = c >= 0x30 && c <= 0x39
+//@ func SkipOneFast assumed "native skip_one_fast: start/end lie inside the input; on error *p is at most 4 bytes past the end; a number is scanned to its last digit (maximal munch)"
 //@   requires 0 <= *p && *p <= len(*s)
 //@   modifies *p
 //@   ensures result >= 0 ==> (old(*p) <= result && result < *p && *p <= len(*s))
+//@   ensures (result >= 0 && *p < len(*s) && isDigit((*s)[*p - 1])) ==> !isDigit((*s)[*p])
 //@   ensures result >= 0 ==> !isSpace((*s)[result])
 //@   ensures result >= 0 ==> (forall k int :: old(*p) <= k && k < result ==> isSpace((*s)[k]))
 //@   ensures result < 0 ==> (0 <= *p && *p <= len(*s) + 4 && -10 <= result)
